@@ -16,7 +16,7 @@ def sh(cmd, cwd=None, timeout=3000):
     return p.returncode, p.stdout
 
 
-def do_import(pid, outdir):
+def do_import(pid, outdir, tag=""):
     wt = f"/tmp/seedcheck-{pid}"
     sh(f"git -C /repo worktree remove --force {wt}")
     rc, out = sh(f"git -C /repo worktree add -q --detach {wt} HEAD")
@@ -31,7 +31,7 @@ def do_import(pid, outdir):
             demo_src = os.path.join(outdir, f"m{i}_demo_test.go")
             demo_rel = meta["demo"]["path"]
             run = meta["demo"]["run"]
-            name = f"{pid}-m{i}"
+            name = f"{pid}-{tag}m{i}"
             res = {"name": name}
             # unchanged tree: demo must pass
             os.makedirs(os.path.dirname(os.path.join(wt, demo_rel)), exist_ok=True)
@@ -111,6 +111,6 @@ def do_check(names):
 
 if __name__ == "__main__":
     if sys.argv[1] == "import":
-        do_import(sys.argv[2], sys.argv[3])
+        do_import(sys.argv[2], sys.argv[3], sys.argv[4] if len(sys.argv) > 4 else "")
     elif sys.argv[1] == "check":
         do_check(sys.argv[2:])
